@@ -110,7 +110,7 @@ inline void normalize(Case& c)
 {
     auto& g = c.cfg;
     g.kind  = modi(g.kind, bx::K_COUNT);
-    g.types = modi(g.types, 2);
+    g.types = modi(g.types, 3);
     g.cap   = static_cast<size_t>(clampi(static_cast<int64_t>(g.cap), 1, kMaxCap));
     if (!(g.mlf > 0.0f) || !(g.mlf < 1e9f))
         g.mlf = 1.0f;
@@ -369,7 +369,7 @@ inline Case from_bytes(const uint8_t* data, size_t size, int forced_kind = -1)
     g.kind     = forced_kind >= 0 ? forced_kind : b0 % bx::K_COUNT;
     uint8_t b1 = r.u8();
     g.sync     = b1 & 1;
-    g.types    = (b1 >> 1) & 1;
+    g.types    = ((b1 >> 1) & 3) % 3;
     uint8_t b2 = r.u8();
     g.cap      = 1 + (b2 % 8);
     if (b2 >= 240)
@@ -444,7 +444,7 @@ inline std::vector<uint8_t> to_bytes(const Case& c)
     std::vector<uint8_t> b;
     const auto&          g = c.cfg;
     b.push_back(static_cast<uint8_t>(g.kind));
-    b.push_back(static_cast<uint8_t>((g.sync ? 1 : 0) | ((g.types & 1) << 1)));
+    b.push_back(static_cast<uint8_t>((g.sync ? 1 : 0) | ((g.types % 3) << 1)));
     b.push_back(static_cast<uint8_t>(g.cap >= 1 && g.cap <= 8 ? g.cap - 1 : (g.cap == 33 ? 241 : 240)));
     int extra = c.uni - static_cast<int>(g.cap) - 1;
     b.push_back(static_cast<uint8_t>(extra < 0 ? 0 : extra > 2 ? 2 : extra));
